@@ -1,10 +1,34 @@
-(* C08: theorems are being added; this file holds ONLY statements closed by exact, each followed by Print Assumptions. *)
+(* C08: arbitrary input cannot crash or derail the daemon (partial: memory safety of the C code is observed by sanitizers, not proved).
+   ONLY statements closed by `exact`, each followed by Print Assumptions. *)
 From Coq Require Import List NArith ZArith Bool Strings.Byte Strings.String.
 Import ListNotations.
-Require Import Params Iauth IauthFacts.
+Require Import Params Iauth Line Junk.
 Local Open Scope list_scope.
 
-Theorem stray_reply_is_a_noop_on_the_request : forall c tb r svcn text,
-  find_slot (slots tb) 0 svcn (refm r) = None -> reply c tb r svcn text = (Some r, [], []).
-Proof. exact stray_reply_noop. Qed.
-Print Assumptions stray_reply_is_a_noop_on_the_request.
+(* the argument vector never has more entries than slots (16 in iauth_read) *)
+Theorem argument_vector_bounded : forall fuel slots s, (List.length (toks fuel slots s) <= slots)%nat.
+Proof. exact toks_bound. Qed.
+Print Assumptions argument_vector_bounded.
+
+(* junk lines - unknown client id, unknown command letter, empty / blank line, line without a command - change nothing *)
+Theorem junk_line_changes_nothing : forall c s raw, Junk s raw -> step_line c s raw = (s, []).
+Proof. exact junk_noop. Qed.
+Print Assumptions junk_line_changes_nothing.
+
+(* ... so removing any set of junk lines from a history changes neither the final state nor the output of the other lines *)
+Theorem junk_lines_are_removable : forall c es mask s, marked_junk c s mask es ->
+  final c s (thin mask es) = final c s es /\
+  run_revs c s (thin mask es) = thin mask (run_revs c s es) /\
+  Forall (fun x => fst x = []) (picked mask (run_revs c s es)).
+Proof. exact junk_removable. Qed.
+Print Assumptions junk_lines_are_removable.
+
+(* the sequence of lines delivered by the accumulating input buffer does not depend on how the stream is cut into read() chunks *)
+Theorem line_splitting_ignores_chunking : forall chunks, feed_all chunks = feed [] (List.concat chunks).
+Proof. exact chunking. Qed.
+Print Assumptions line_splitting_ignores_chunking.
+
+(* peer death at any byte: the lines delivered for a prefix of the stream are a prefix of those delivered for the whole stream *)
+Theorem prefix_of_stream_gives_prefix_of_lines : forall p q, exists more, snd (feed [] (p ++ q)) = snd (feed [] p) ++ more.
+Proof. exact prefix_lines. Qed.
+Print Assumptions prefix_of_stream_gives_prefix_of_lines.
